@@ -293,7 +293,7 @@ def run_redirect_budgets(ctx: Ctx, rec: Recorder) -> None:
             for n in range(2, L + 1):
                 for seq in itertools.product(alpha, repeat=n):
                     idx += 1
-                    if "302" not in seq[:-1] or seq[0] == "200" or not ctx.mine(idx) or (idx // ctx.nshards) % stride:
+                    if "302" not in seq[:-1] or seq[0] == "200" or not ctx.mine(idx) or ctx.skip(idx, stride):
                         continue
                     case = {"mode": "redirect-budgets", "entry": entry, "retries": cfg, "seq": list(seq)}
                     rec.case(["redirect-budgets", entry, cfg, seq])
@@ -392,7 +392,7 @@ def run_shard(ctx: Ctx, rec: Recorder) -> None:
         for n in range(1, L + 1):
             for seq in itertools.product(base_alpha, repeat=n):
                 idx += 1
-                if not ctx.mine(idx) or (idx // ctx.nshards) % stride:
+                if not ctx.mine(idx) or ctx.skip(idx, stride):
                     continue
                 if cfg["total"] is None and all(s != "200" for s in seq) and cfg.get("connect") is None and cfg.get("read") is None:
                     pass  # unbounded by design; the script ends with a default 200 anyway
